@@ -892,7 +892,7 @@ def drive(a, pid, workdir, t0, cli):
         tenv = dict(env)
         tlog = workdir / "repo-tests.err"
         with open(tlog, "wb") as ef:
-            p = subprocess.run([sys.executable, "-m", "pytest", "-q", "-x", "--no-header",
+            p = subprocess.run([sys.executable, "-m", "pytest", "-q", "--no-header",
                                 "-p", "no:cacheprovider", "--timeout=900",
                                 str(hb.REPO / "src" / "hydrodiy" / "data" / "tests"),
                                 str(hb.REPO / "src" / "hydrodiy" / "stat" / "tests"),
